@@ -387,6 +387,13 @@ def r4(ctx: Context) -> None:
             if isinstance(k_, ast.Constant) and k_.value == "args":
                 plain = (isinstance(v_, ast.Attribute) and v_.attr == "args") or (isinstance(v_, ast.Call) and isinstance(v_.func, ast.Name) and v_.func.id in ("list", "tuple") and len(v_.args) == 1 and isinstance(v_.args[0], ast.Attribute) and v_.args[0].attr == "args")
                 ctx.add("R4", "pynenc-error::PynencError::args-stored-unchanged", plain, base_to.loc(v_), "" if plain else f"'args' is stored as `{ast.unparse(v_)[:60]}`, not as the arguments themselves: a non-string argument changes type on the distributed path (the worker's error is serialised, the sync mode re-raises the original object)")
+                # ... and WHENEVER there are any: the branch that stores them is taken for every non-empty args tuple, not
+                # depending on what the arguments are (`any(self.args)` drops RetryError(0) / RetryError(""))
+                from ..flow import conditions_at as _cat, func_cfg as _fc, parent_map as _pmp
+
+                conds_ = _cat(_fc(repo, base_to), base_to.node, d_, _pmp(base_to.node))
+                value_dep = [c_ for c_ in conds_ if any(isinstance(x, ast.Attribute) and x.attr == "args" for x in ast.walk(c_)) and not (isinstance(c_, ast.Attribute) and c_.attr == "args") and not (isinstance(c_, ast.Compare) and isinstance(c_.left, ast.Call) and call_name(c_.left) == "len")]
+                ctx.add("R4", "pynenc-error::PynencError::args-stored-whenever-present", not value_dep, base_to.loc(d_), "" if not value_dep else f"the arguments are stored only when `{ast.unparse(value_dep[0])[:60]}`: an error whose arguments are all falsy (0, '', False) is stored without them and read back as an error without arguments - the distributed path then raises something else than the sync path")
     n_cls = 0
     args_only: list[str] = []
     for c in [pe] + pe.all_subclasses():
